@@ -158,8 +158,8 @@ Proof.
 Qed.
 Print Assumptions C01_emit_shape.
 
-(** a percentile is the business of the CKMS sketch (not modelled): an empty
-    group reports None, otherwise the model only records what reached the sketch *)
+(** a percentile is the answer of the CKMS sketch (Ckms.v) over the group's non-NaN numeric argument values: an empty
+    group reports None (Ckms_proofs.v: [pct_cell_none_iff], [pct_cell_observed]) *)
 Theorem C01_percentile_empty : forall p e rows, numeric_args e rows = [] ->
   acc_emit (fold_left acc_step rows (acc_empty (FPct p e))) = Ok VNone.
 Proof.
@@ -169,7 +169,7 @@ Proof.
   { induction rows as [|d rows IH]; intros vals Hn; [reflexivity|].
     cbn [fold_left acc_step]. unfold numeric_args in Hn. cbn [flat_map] in Hn.
     destruct (eval_f64 e d); cbn in Hn; try discriminate; now apply IH. }
-  intros Hn. now rewrite H.
+  intros Hn. rewrite H by exact Hn. reflexivity.
 Qed.
 Print Assumptions C01_percentile_empty.
 
@@ -257,3 +257,20 @@ Theorem C01_sketch_keeps_the_minimum : forall vals,
   In vmin vals /\ forall v, In v vals -> fleb vmin v = true.
 Proof. exact ckms_min_kept. Qed.
 Print Assumptions C01_sketch_keeps_the_minimum.
+
+(** *** the percentile CELL of the aggregation model is the sketch's answer ([acc_emit] of [APct] runs [ckms_run] with the
+    error bound read from the source, [Generated.ckms_error]) *)
+Theorem C01_percentile_cell_none_iff : forall p e rows,
+  acc_emit (fold_left acc_step rows (acc_empty (FPct p e))) = Ok VNone <-> pct_args e rows = [].
+Proof. exact pct_cell_none_iff. Qed.
+Print Assumptions C01_percentile_cell_none_iff.
+
+Theorem C01_percentile_cell_is_an_argument_of_the_group : forall p e rows, pct_args e rows <> [] ->
+  exists v, In v (pct_args e rows) /\
+            acc_emit (fold_left acc_step rows (acc_empty (FPct p e))) = Ok (from_float v).
+Proof. exact pct_cell_observed. Qed.
+Print Assumptions C01_percentile_cell_is_an_argument_of_the_group.
+
+Theorem C01_percentile_emit_total : forall vals p e, exists v, acc_emit (APct vals p e) = Ok v.
+Proof. exact pct_emit_ok. Qed.
+Print Assumptions C01_percentile_emit_total.
